@@ -48,6 +48,17 @@ type clientInvocation struct {
 	request      wamp.ID
 }
 
+// invQueue holds the INVOCATION messages of one call - the first one and any
+// progressive chunks that follow - until the goroutine running the handler
+// takes them. It is not bounded, because run() must never wait for a handler:
+// while run() waits, no INTERRUPT, reply or GOODBYE is processed.
+type invQueue struct {
+	// msgs is accessed with the session lock held.
+	msgs []*wamp.Invocation
+	// ready signals the handler goroutine that msgs is not empty.
+	ready chan struct{}
+}
+
 // A Client routes messages to/from a WAMP router.
 type Client struct {
 	sess *wamp.Session
@@ -59,7 +70,7 @@ type Client struct {
 	topicSubID    map[string]wamp.ID
 
 	invHandlers       map[wamp.ID]InvocationHandler
-	invHandlersQueues map[clientInvocation]chan *wamp.Invocation
+	invHandlersQueues map[clientInvocation]*invQueue
 	invHandlersCtxs   map[clientInvocation]context.Context
 	invFinalQueued    map[clientInvocation]struct{}
 	nameProcID        map[string]wamp.ID
@@ -285,7 +296,7 @@ func NewClient(p wamp.Peer, cfg Config) (*Client, error) {
 		topicSubID:    map[string]wamp.ID{},
 
 		invHandlers:       map[wamp.ID]InvocationHandler{},
-		invHandlersQueues: map[clientInvocation]chan *wamp.Invocation{},
+		invHandlersQueues: map[clientInvocation]*invQueue{},
 		invHandlersCtxs:   map[clientInvocation]context.Context{},
 		invFinalQueued:    map[clientInvocation]struct{}{},
 		nameProcID:        map[string]wamp.ID{},
@@ -1655,21 +1666,9 @@ func (c *Client) cleanupInvHandlersQueue(cliInvocation clientInvocation) {
 	delete(c.invHandlersQueues, cliInvocation)
 	delete(c.invHandlersCtxs, cliInvocation)
 	delete(c.invFinalQueued, cliInvocation)
+	handlerQueue.msgs = nil
 
 	c.sess.Unlock()
-	// Drain chan in case anyone is blocked.
-	for {
-		select {
-		case _, ok := <-handlerQueue:
-			if !ok {
-				return // chan closed
-			}
-		default:
-			return
-		}
-	}
-
-	// Do not close `handlerQueue` in case someone still has a reference and tries to send.
 }
 
 // runHandleInvocation processes an INVOCATION message from the router
@@ -1766,7 +1765,7 @@ func (c *Client) runHandleInvocation(msg *wamp.Invocation) {
 		if c.debug {
 			c.log.Println("Creating new handlerQueue reqID=", reqID)
 		}
-		handlerQueue = make(chan *wamp.Invocation, 1)
+		handlerQueue = &invQueue{ready: make(chan struct{}, 1)}
 		c.invHandlersQueues[cliInvocation] = handlerQueue
 
 		// Create a kill switch so that invocation can be canceled.
@@ -1800,18 +1799,13 @@ func (c *Client) runHandleInvocation(msg *wamp.Invocation) {
 	if inProgress, _ := msg.Details[wamp.OptProgress].(bool); !inProgress {
 		c.invFinalQueued[cliInvocation] = struct{}{}
 	}
+	handlerQueue.msgs = append(handlerQueue.msgs, msg)
 	c.sess.Unlock()
 
-	if !queueExists {
-		handlerQueue <- msg // does not block, the queue is new
-	} else {
-		// The queue is full while the handler is busy with earlier chunks.
-		// Do not wait for it when the client is being closed.
-		select {
-		case handlerQueue <- msg:
-		case <-c.sess.RecvDone():
-			return
-		}
+	// Wake the handler goroutine, without waiting for it.
+	select {
+	case handlerQueue.ready <- struct{}{}:
+	default:
 	}
 
 	if !queueExists {
@@ -1830,28 +1824,36 @@ func (c *Client) runHandleInvocation(msg *wamp.Invocation) {
 				processMessages := true
 				for processMessages {
 					select {
-					case msg, ok := <-handlerQueue:
-						if !ok { // chan closed
-							return
-						}
+					case <-handlerQueue.ready:
+						// Handle everything that is queued, in order.
+						for processMessages {
+							c.sess.Lock()
+							if len(handlerQueue.msgs) == 0 {
+								c.sess.Unlock()
+								break
+							}
+							msg := handlerQueue.msgs[0]
+							handlerQueue.msgs = handlerQueue.msgs[1:]
+							c.sess.Unlock()
 
-						if isInProgress, _ := msg.Details[wamp.OptProgress].(bool); !isInProgress {
-							processMessages = false
-						}
+							if isInProgress, _ := msg.Details[wamp.OptProgress].(bool); !isInProgress {
+								processMessages = false
+							}
 
-						// The Context is passed into the handler to tell the
-						// client application to stop whatever it is doing if
-						// it cares to pay attention.
-						result := handler(ctx, msg)
-						select {
-						case resChan <- result:
-						case <-c.Done():
-							return
-						case <-ctx.Done():
-							return
-						}
-						if result.Err != "" && result.Err != wamp.InternalProgressiveOmitResult {
-							return
+							// The Context is passed into the handler to tell
+							// the client application to stop whatever it is
+							// doing if it cares to pay attention.
+							result := handler(ctx, msg)
+							select {
+							case resChan <- result:
+							case <-c.Done():
+								return
+							case <-ctx.Done():
+								return
+							}
+							if result.Err != "" && result.Err != wamp.InternalProgressiveOmitResult {
+								return
+							}
 						}
 					case <-c.Done():
 						return
